@@ -855,6 +855,10 @@ def gen_mns(tier, seed):
                     if not any(vals):
                         vals[0] = 1
                     factors.append({"vars": sc, "values": vals})
+                if factors and (k + j) % 3 == 0:
+                    # the same potential twice (equal scope and values): both copies belong to the product that defines the joint
+                    d = factors[(k + j) % len(factors)]
+                    factors.insert(0, {"vars": list(d["vars"]), "values": list(d["values"])})
                 yield {"mn": {"nodes": names, "edges": edges, "states": states, "factors": factors}, "style": style, "seed": rng.randint(0, 10 ** 6), "always": bool(edges)}
 
 
@@ -1128,7 +1132,7 @@ def check_real(case):
     lat = case["latents"]
     nodes = spec["nodes"]
     rng = O.mk_rng(case["seed"], "real")
-    sd = case["seed"] % 7919
+    sd = 0 if case["seed"] % 4 == 0 else case["seed"] % 7919   # seed 0 is a seed like any other
     N = 30
     m = O.make_bn(spec, lat)
     evs = _evidence_sets(spec, rng, 3, positive=True)[:3]
